@@ -155,9 +155,25 @@ def cases_for(ctx):
     return out
 
 
+def available(res):
+    """The table-level tie looks INSIDE the implementation (`_compute_thl_table` and the layout of its table).
+    If those internals were refactored away (import / call / structure fails on a trivial input) the tie is
+    unavailable: a note, not an alarm — the public-API correspondence of the C01 check still decides."""
+    try:
+        real_table({"S": [[], []], "O": [{"s": "0"}, {"s": "1"}],
+                    "costs": {"spe": 0, "dup": 1, "hgt": 1, "floss": 1}}, "all")
+        return True
+    except Exception as e:  # noqa
+        res.notes.append(f"table-level tie (c01_code) unavailable: internals changed ({type(e).__name__}: {str(e)[:120]})")
+        res.dist["code-table tie unavailable"] += 1
+        return False
+
+
 def run_code(ctx, res):
-    check_cases(ctx, res, cases_for(ctx))
+    if available(res):
+        check_cases(ctx, res, cases_for(ctx))
 
 
 def corpus_code(ctx, res, corpus):
-    check_cases(ctx, res, list(corpus))
+    if available(res):
+        check_cases(ctx, res, list(corpus))
